@@ -22,12 +22,12 @@ OOA = 'bridgepoint.ooaofooa'
 def run(ctx):
     repo = ctx.repo
     ki = kindrules.infer(repo, OOA)
-    kindrules.kinds_rule(ctx, 'C14-KINDS', OOA, 55, ki)
-    sides(ctx)
-    dispatch(ctx)
-    order(ctx)
-    types(ctx)
-    forward(ctx)
+    ctx.guard(kindrules.kinds_rule, ctx, 'C14-KINDS', OOA, 55, ki)
+    ctx.guard(sides, ctx)
+    ctx.guard(dispatch, ctx)
+    ctx.guard(order, ctx)
+    ctx.guard(types, ctx)
+    ctx.guard(forward, ctx)
     ctx.assume('the effect of edit scripts on concrete BridgePoint models is not decided')
     ctx.assume('writing the schema and loading it back is decided by the C01 rules')
     return ('Schema type-check of the ooaofooa navigations; provenance (after substituting local definitions) of each keyword '
